@@ -231,7 +231,7 @@ theorem submasksFrom_spec (w x : Nat) : ∀ s, s < 2 ^ w → s &&& x = s →
       rw [submasksFrom_eq]
       simp [isSubmask]
     · have hstep : wrappingSub1 w s &&& x = (s - 1) &&& x := by
-        unfold wrappingSub1; rw [if_neg hs, Nat.mod_eq_of_lt (by omega)]
+        unfold wrappingSub1; rw [if_neg hs, pow2_eq, Nat.mod_eq_of_lt (by omega)]
       have hle : (s - 1) &&& x ≤ s - 1 := Nat.and_le_left
       have e : submasksFrom w s x = s :: submasksFrom w ((s - 1) &&& x) x := by
         rw [submasksFrom_eq, if_neg hs, hstep]
@@ -264,7 +264,7 @@ theorem filter_range'_skip (p : Nat → Bool) (c a b : Nat) (hab : a ≤ b) (hbc
     rw [this, List.range'_succ, List.filter_cons_of_neg (by rw [hnone b hab (by omega)]; simp)]
 
 theorem submask_ones {x w : Nat} (hx : x < 2 ^ w) : x &&& ones w = x := by
-  unfold ones; rw [Nat.and_two_pow_sub_one_eq_mod, Nat.mod_eq_of_lt hx]
+  unfold ones; rw [pow2_eq, Nat.and_two_pow_sub_one_eq_mod, Nat.mod_eq_of_lt hx]
 
 theorem supermasksFrom_spec (w x : Nat) (hx : x < 2 ^ w) : ∀ k s, ones w - s = k → s < 2 ^ w → x &&& s = x →
     supermasksFrom w s x ++ [ones w] = (List.range' s (2 ^ w - s)).filter (fun u => isSubmask x u) := by
@@ -278,21 +278,21 @@ theorem supermasksFrom_spec (w x : Nat) (hx : x < 2 ^ w) : ∀ k s, ones w - s =
     by_cases hs' : s = ones w
     · have hs := hcz.mpr hs'
       rw [supermasksFrom_eq, if_pos hs]
-      have : 2 ^ w - s = 1 := by rw [hs']; unfold ones; omega
+      have : 2 ^ w - s = 1 := by rw [hs']; unfold ones; rw [pow2_eq]; omega
       rw [this]
       simp only [List.range'_one, List.nil_append]
       rw [List.filter_cons_of_pos (by rw [hs']; exact (isSubmask_iff _ _).mpr (submask_ones hx))]
       simp [hs']
     · have hs : ¬ countZeros w s = 0 := fun h => hs' (hcz.mp h)
-      have hs1 : s + 1 < 2 ^ w := by unfold ones at hs'; omega
+      have hs1 : s + 1 < 2 ^ w := by unfold ones at hs'; rw [pow2_eq] at hs'; omega
       have hstep : wrappingAdd1 w s ||| x = (s + 1) ||| x := by
-        unfold wrappingAdd1; rw [Nat.mod_eq_of_lt hs1]
+        unfold wrappingAdd1; rw [pow2_eq, Nat.mod_eq_of_lt hs1]
       have hge : s + 1 ≤ (s + 1) ||| x := Nat.left_le_or
       have hlt : (s + 1) ||| x < 2 ^ w := Nat.or_lt_two_pow hs1 hx
       have e : supermasksFrom w s x = s :: supermasksFrom w ((s + 1) ||| x) x := by
         rw [supermasksFrom_eq, if_neg hs, hstep]
       rw [e, List.cons_append,
-        ih (ones w - ((s + 1) ||| x)) (by unfold ones at hk ⊢; omega) ((s + 1) ||| x) rfl hlt
+        ih (ones w - ((s + 1) ||| x)) (by unfold ones at hk ⊢; rw [pow2_eq] at hk ⊢; omega) ((s + 1) ||| x) rfl hlt
           (and_or_self_right x (s + 1))]
       have : 2 ^ w - s = (2 ^ w - (s + 1)) + 1 := by omega
       rw [this, List.range'_succ, List.filter_cons_of_pos (p := fun u => isSubmask x u) ((isSubmask_iff x s).mpr hxs)]
